@@ -11,7 +11,12 @@ META = {
               'per length, every truncation); encode: every integer in '
               '(-2^77, 2^77); W=96 bit-vectors with overflow obligations; '
               'loop unwinding bound 64 decisions (an encoding of a 77-bit '
-              'number takes 11 iterations)',
+              'number takes 11 iterations); histories: 2 encodings over '
+              '[-4, 2^35) and 3 over [-4, 2^14) (thorough: 3 over 2^35), '
+              'each VarInt or VarLong, each to a sink whose send() may '
+              'raise IOError (symbolic); decoding also from a buffered '
+              'stream whose peek() returns any non-empty prefix of the '
+              'rest (symbolic)',
     'outside': 'integers of magnitude >= 2^77; streams longer than 13 bytes '
                '(the decoder never reads more than max_bytes+1 = 11)',
     'assumptions': [
@@ -34,7 +39,42 @@ def _b8(x):
     return z3.BitVecVal(x, 8) if isinstance(x, int) else x
 
 
-def read_any(ctx, cls, sentinel=False):
+class PeekStream(object):
+    """E-stream, buffered kind (io.BufferedReader over a file or socket):
+    read(n) returns min(n, remaining) bytes; peek() returns, without
+    consuming, ANY non-empty prefix of what remains - how much happens to be
+    buffered is an input"""
+
+    def __init__(self, ctx, items):
+        self.ctx = ctx
+        self.items = list(items)
+        self.pos = 0
+        self.peeks = 0
+
+    def _out(self, its):
+        if self.ctx.mode == 'sym':
+            return SBytes(its).fold()
+        return bytes(its)
+
+    def read(self, n=-1):
+        if isinstance(n, SInt):
+            n = concretize(n)
+        rem = len(self.items) - self.pos
+        k = rem if n is None or n < 0 else min(n, rem)
+        out = self.items[self.pos:self.pos + k]
+        self.pos += k
+        return self._out(out)
+
+    def peek(self, n=0):
+        rem = len(self.items) - self.pos
+        if rem == 0:
+            return b''
+        self.peeks += 1
+        r = concretize(self.ctx.int('buffered%d' % self.peeks, 1, rem))
+        return self._out(self.items[self.pos:self.pos + r])
+
+
+def read_any(ctx, cls, sentinel=False, stream='buffer'):
     """decode an arbitrary stream of L <= 13 arbitrary bytes"""
     T = _types()[cls]
     maxb = 5 if cls == 'VarInt' else 10
@@ -43,7 +83,12 @@ def read_any(ctx, cls, sentinel=False):
     L = concretize(ctx.int('L', 0, 13))
     data = ctx.bytes('data', 13)
     items = [_b8(b) for b in bytes_items(data)][:L]
-    buf = new_buffer(SBytes(items) if ctx.mode == 'sym' else bytes(data[:L]))
+    if stream == 'peek':
+        buf = PeekStream(ctx, items if ctx.mode == 'sym'
+                         else list(bytes(data[:L])))
+    else:
+        buf = new_buffer(SBytes(items) if ctx.mode == 'sym'
+                         else bytes(data[:L]))
     kind, val = None, None
     try:
         val = T.read(buf)
@@ -52,7 +97,7 @@ def read_any(ctx, cls, sentinel=False):
         kind = 'eof'
     except ValueError:
         kind = 'toolong'
-    consumed = L - remaining(buf)
+    consumed = buf.pos if stream == 'peek' else L - remaining(buf)
     W = ctx.W
     cont = [(b & 0x80) != 0 for b in items]
     # reference semantics as one formula over all cases
@@ -76,7 +121,8 @@ def read_any(ctx, cls, sentinel=False):
     else:
         cases.append(z3.Implies(allc, z3.BoolVal(
             kind == 'eof' and consumed == L)))
-    note_key(ctx, 'C03:read:%s:%s' % (cls, kind))
+    note_key(ctx, 'C03:read:%s:%s%s' % (cls, kind, ':peekable'
+                                        if stream == 'peek' else ''))
     return z3.And(z3.BoolVal(consumed <= (5 if cls == 'VarInt' else 10) + 1),
                   *cases)
 
@@ -215,6 +261,13 @@ def instances(tier, seed):
                  budget_s=300, max_decisions=400),
         Instance('read_any:VarLong', 'read_any', {'cls': 'VarLong'}, W=96,
                  budget_s=300, max_decisions=400),
+        Instance('read_any:VarInt:peekable', 'read_any',
+                 {'cls': 'VarInt', 'stream': 'peek'}, W=96, budget_s=300,
+                 max_decisions=400,
+                 note='a buffered stream that also offers peek()'),
+        Instance('read_any:VarLong:peekable', 'read_any',
+                 {'cls': 'VarLong', 'stream': 'peek'}, W=96, budget_s=300,
+                 max_decisions=400),
         Instance('send_canonical', 'send_canonical', {'hi_bits': 77}, W=96,
                  budget_s=300, max_decisions=400),
         Instance('send_terminates', 'send_terminates', {}, W=96,
